@@ -73,3 +73,24 @@ R("C19", "partition-form", JS, "        try:\n            module_name, class_nam
   "        module_name, _sep, class_name = fully_qualified_class_name.rpartition(\".\")\n        if not module_name or")
 M("C19", "call-from-json-on-any-class", JS, "        if issubclass(target_cls, SubclassJSONSerializer):\n            return target_cls._from_json(data, **kwargs)\n",
   "        if hasattr(target_cls, '__mro__'):\n            return target_cls._from_json(data, **kwargs)\n", "_from_json:AttributeError")
+
+# ------------------------------------------------------------------------------------- C18
+UT = "krrood/utils.py"
+M("C18", "tag-base-class", JS, "return {JSON_TYPE_NAME: get_full_class_name(self.__class__)}", "return {JSON_TYPE_NAME: get_full_class_name(SubclassJSONSerializer)}", "JS-TAG")
+M("C18", "tag-name-only", UT, 'return cls.__module__ + "." + cls.__name__', "return cls.__name__", "JS-TAG")
+M("C18", "tag-colon", UT, 'return cls.__module__ + "." + cls.__name__', 'return cls.__module__ + ":" + cls.__name__', "JS-TAG")
+M("C18", "uuid-tag-missing", JS, "        JSON_TYPE_NAME: get_full_class_name(type(obj)),\n", "", "JS-TAG")
+M("C18", "split-first-dot", JS, 'fully_qualified_class_name.rsplit(".", 1)', 'fully_qualified_class_name.split(".", 1)', "split-last-dot")
+M("C18", "writer-skips-falsy-elements", JS, "return [to_json(item) for item in obj]", "return [to_json(item) for item in obj if item]", "to_json#elementwise")
+M("C18", "reader-no-recursion", JS, "return [from_json(d) for d in data]", "return list(data)", "from_json#elementwise")
+M("C18", "reader-dispatch-on-cls", JS, "return target_cls._from_json(data, **kwargs)", "return cls._from_json(data, **kwargs)", "resolved-class")
+M("C18", "registry-key-mismatch", JS, "        self._deserializers[type_class] = deserializer", "        self._deserializers[type_class.__name__] = deserializer", "JSONSerializableTypeRegistry")
+M("C18", "getter-wrong-table", JS, "        return self._deserializers.get(type_class)", "        return self._serializers.get(type_class)", "JSONSerializableTypeRegistry")
+M("C18", "leaf-drops-bool", JS, "    str,\n    bool,\n    NoneType,", "    str,\n    NoneType,", "json-scalars")
+M("C18", "reader-list-before-leaf", JS, "        if isinstance(data, leaf_types):\n            return data\n\n        if isinstance(data, list_like_classes):\n            return [from_json(d) for d in data]\n",
+  "        if isinstance(data, list_like_classes):\n            return [from_json(d) for d in data]\n\n        if isinstance(data, leaf_types):\n            return data\n", "dispatch-order")
+M("C18", "writer-registry-by-base", JS, "registered_json_serializer = JSONSerializableTypeRegistry().get_serializer(\n        type(obj)\n    )", "registered_json_serializer = JSONSerializableTypeRegistry().get_serializer(\n        type(obj).__mro__[-2]\n    )", "registry-key")
+R("C18", "fstring-name", UT, 'return cls.__module__ + "." + cls.__name__', 'return f"{cls.__module__}.{cls.__name__}"')
+R("C18", "type-self", JS, "get_full_class_name(self.__class__)", "get_full_class_name(type(self))")
+R("C18", "rename-constants", JS, "leaf_types", "scalar_types", count=99)
+R("C18", "rpartition", JS, "            module_name, class_name = fully_qualified_class_name.rsplit(\".\", 1)\n", "            module_name, _, class_name = fully_qualified_class_name.rpartition(\".\")\n")
